@@ -1,6 +1,8 @@
 import SigHook.Lemmas.HalfLock
 import SigHook.Model.Skel
 import SigHook.Lemmas.RegistryConcLive
+import SigHook.Lemmas.RegistryConcQuiet
+import SigHook.Props.C02
 /-!
 # C18 — Registry calls always terminate when overlapping deliveries terminate
 
@@ -121,46 +123,6 @@ def solo (ye : Nat) (s : Sys) (t : Nat) : Nat → Sys
   | n + 1 => match step ye s t with
     | some (s', _) => solo ye s' t n
     | none => s
-
-/-- number of own steps a writer at `pc` still needs when both reader slots are idle -/
-def rem : Pc → Nat
-  | .wLoad true _ => 8
-  | .wLoad false _ => 2
-  | .wAlloc _ => 7
-  | .wSwap _ => 6
-  | .wSeen0 _ => 5
-  | .wSeen1 _ z0 => if z0 then 4 else 6
-  | .wFlip _ z0 z1 => if z0 && z1 then 3 else if !z0 && !z1 then 6 else 5
-  | .wHint _ z0 z1 _ => if !z0 && !z1 then 5 else 4
-  | .wLoop0 _ _ z1 _ => if z1 then 3 else 4
-  | .wLoop1 _ z0 _ _ => if z0 then 3 else 5
-  | .wFree _ => 2
-  | .wUnlock _ => 1
-  | _ => 0
-
-theorem rem_le (pc : Pc) : rem pc ≤ 8 := by
-  cases pc with
-  | wLoad st b => cases st <;> simp [rem]
-  | wSeen1 o z0 => cases z0 <;> simp [rem]
-  | wFlip o z0 z1 => cases z0 <;> cases z1 <;> simp [rem]
-  | wHint o z0 z1 i => cases z0 <;> cases z1 <;> simp [rem]
-  | wLoop0 o z0 z1 i => cases z1 <;> simp [rem]
-  | wLoop1 o z0 z1 i => cases z0 <;> simp [rem]
-  | _ => simp [rem]
-
-theorem rem_pos (pc : Pc) (hc : pc.crit = true) : 0 < rem pc := by
-  cases pc with
-  | wLoad st b => cases st <;> simp [rem]
-  | wSeen1 o z0 => cases z0 <;> simp [rem]
-  | wFlip o z0 z1 => cases z0 <;> cases z1 <;> simp [rem]
-  | wHint o z0 z1 i => cases z0 <;> cases z1 <;> simp [rem]
-  | wLoop0 o z0 z1 i => cases z1 <;> simp [rem]
-  | wLoop1 o z0 z1 i => cases z0 <;> simp [rem]
-  | idle => cases hc
-  | rInc g u => cases hc
-  | rData sl u => cases hc
-  | rUse sl p u => cases hc
-  | _ => simp [rem]
 
 /-- one solo step of a writer, with both slots idle, keeps them idle and uses up one unit -/
 theorem solo_step (ye : Nat) (s : Sys) (t : Nat) (ht : t < s.threads.length)
@@ -313,5 +275,31 @@ theorem C18_lock_order_source :
       (skelOf regFile fn).head? = some "data.write") ∧
     (∀ fn ∈ ["unregister", "unregister_signal", "handler"], ¬ (skelOf regFile fn).contains "fallback.write") ∧
     ¬ (skelOf regFile "handler").contains "data.write" := by decide
+
+/-- **C18.registry_quiescent_completion** — "once the deliveries that were in flight when a mutator published
+its change have returned and no new one arrives, the mutator completes on its own", at registry level: in
+every reachable state in which thread `t` is anywhere inside `register` / `unregister` / `unregister_signal`
+(including a first registration with its nested `race_fallback` write and its two `sigaction` calls), no
+delivery is inside a read section of either half-lock, and `data`'s writer mutex is free or `t`'s own, the
+thread *alone* returns from its operation within `meas` (at most 36) of its own steps - nobody else has to act, and its
+remaining script is untouched. -/
+theorem C18_registry_quiescent_completion {env : Env} {ye : Nat} {disp : List (Int × Disp)}
+    {scripts : List (List Op)} {s : Sys} (hr : Reachable env ye disp scripts s) (t : Nat) (th : Thread)
+    (hth : s.threads[t]? = some th) (hm : isMut th.pc = true) (hq : Quiet s)
+    (ho : s.hd.mutexOwner = none ∨ s.hd.mutexOwner = some t) :
+    ∃ n, n ≤ meas s t th.pc ∧ meas s t th.pc ≤ 36 ∧
+      ∃ th', (solo6 env ye s t n).threads[t]? = some th' ∧ th'.pc = .idle ∧ th'.script = th.script := by
+  obtain ⟨n, hn, h⟩ := quiescent_completion6 (meas s t th.pc) s hr t th hth hm hq ho (Nat.le_refl _)
+  exact ⟨n, hn, meas_le _ _ _, h⟩
+
+/-- non-vacuity: the first registration of the demo system, two steps in (it holds `data`'s writer mutex), with
+nobody else around, meets the hypotheses; its measure is 19 and it finishes alone in exactly 19 steps -/
+example :
+    let s := (runSched demoEnv demoSys [0, 0]).1
+    (s.threads[0]?.map (fun th => isMut th.pc)) = some true ∧ s.hd.lock0 = 0 ∧ s.hd.lock1 = 0 ∧ s.hf.lock0 = 0 ∧
+      s.hf.lock1 = 0 ∧ s.hd.mutexOwner = some 0 ∧
+      (s.threads[0]?.map (fun th => meas s 0 th.pc)) = some 19 ∧
+      ((solo6 demoEnv 16 s 0 19).threads[0]?.map (fun th => (isMut th.pc, th.script.length))) = some (false, 1) := by
+  decide
 
 end SigHook.RegConc
